@@ -86,6 +86,57 @@ impl Acc {
             self.samples.push(v);
         }
     }
+    /// Serialise for transport from an isolated worker process.
+    pub fn to_json(&self) -> Value {
+        json!({
+            "evaluations": self.evaluations,
+            "held": self.held,
+            "inconclusive": self.inconclusive,
+            "nontrivial": self.nontrivial.iter().collect::<Vec<_>>(),
+            "distinct_inputs": self.distinct_inputs.iter().collect::<Vec<_>>(),
+            "violations": self.violations.iter().map(|v| v.to_json()).collect::<Vec<_>>(),
+            "counters": self.counters,
+            "samples": self.samples,
+        })
+    }
+    pub fn from_json(v: &Value) -> Acc {
+        let mut a = Acc::new();
+        a.evaluations = v["evaluations"].as_u64().unwrap_or(0);
+        a.held = v["held"].as_u64().unwrap_or(0);
+        if let Some(m) = v["inconclusive"].as_object() {
+            for (k, x) in m {
+                a.inconclusive.insert(k.clone(), x.as_u64().unwrap_or(0));
+            }
+        }
+        for x in v["nontrivial"].as_array().cloned().unwrap_or_default() {
+            if let Some(h) = x.as_u64() {
+                a.nontrivial.insert(h);
+            }
+        }
+        for x in v["distinct_inputs"].as_array().cloned().unwrap_or_default() {
+            if let Some(h) = x.as_u64() {
+                a.distinct_inputs.insert(h);
+            }
+        }
+        for x in v["violations"].as_array().cloned().unwrap_or_default() {
+            a.violations.push(Violation {
+                property: x["property"].as_str().unwrap_or("").to_string(),
+                input: x["input"].as_str().unwrap_or("").to_string(),
+                cfg: if x["cfg"].is_object() { Some(Cfg::from_json(&x["cfg"])) } else { None },
+                origin: x["origin"].as_str().unwrap_or("").to_string(),
+                oracle: x["oracle"].as_str().unwrap_or("").to_string(),
+                detail: x["detail"].as_str().unwrap_or("").to_string(),
+                extra: x["extra"].clone(),
+            });
+        }
+        if let Some(m) = v["counters"].as_object() {
+            for (k, x) in m {
+                a.counters.insert(k.clone(), x.as_u64().unwrap_or(0));
+            }
+        }
+        a.samples = v["samples"].as_array().cloned().unwrap_or_default();
+        a
+    }
     pub fn merge(&mut self, o: Acc) {
         self.evaluations += o.evaluations;
         self.held += o.held;
